@@ -37,6 +37,9 @@ RULE = ('spec = generated CSV (1-6 columns, row counts k*m-1 / k*m / k*m+1 and 1
 
 def _post(rng, spec):
     cli = spec['cli']
+    if rng.random() < 0.15:
+        spec['workload']['source'] = 'ob-csv'      # column names and types from dataset_desc.json; first line of data.csv is skipped as a header
+        spec['workload']['float_cols'] = []
     ex = cli.get('explode_multivalue_features')
     if cli.get('feature_set_focus') and ex and ex not in cli['feature_set_focus'].split(','):
         cli['feature_set_focus'] += ',' + ex
